@@ -183,7 +183,7 @@ static inline
 struct cds_lfq_node_rcu *_cds_lfq_dequeue_rcu(struct cds_lfq_queue_rcu *q)
 {
 	for (;;) {
-		struct cds_lfq_node_rcu *head, *next;
+		struct cds_lfq_node_rcu *head, *next, *tail;
 
 		head = rcu_dereference(q->head);
 		next = rcu_dereference(head->next);
@@ -200,6 +200,19 @@ struct cds_lfq_node_rcu *_cds_lfq_dequeue_rcu(struct cds_lfq_queue_rcu *q)
 			enqueue_dummy(q);
 			next = rcu_dereference(head->next);
 		}
+		/*
+		 * Never let head overtake tail: if tail still points to
+		 * the node we are about to remove (an enqueuer linked
+		 * "next" but has not advanced tail yet), help moving it
+		 * forward first. Otherwise the removed node would stay
+		 * reachable through q->tail after its grace period has
+		 * started, and a later enqueuer could dereference it
+		 * after it has been freed or reused.
+		 */
+		tail = rcu_dereference(q->tail);
+		if (tail == head)
+			(void) uatomic_cmpxchg_mo(&q->tail, head, next,
+						CMM_SEQ_CST, CMM_SEQ_CST);
 		if (uatomic_cmpxchg_mo(&q->head, head, next,
 					CMM_SEQ_CST, CMM_SEQ_CST) != head)
 			continue;	/* Concurrently pushed. */
